@@ -17,8 +17,8 @@ PROP = {
                    "orientation is judged on the total signed area of a simple polygon's result (slivers inside the one-unit band skipped)"),
     "technique": "runtime monitoring: exact winding-number reference oracle per input polygon over generated executions",
     "rule": ("cases = one rectangle and 1-4 polygons; 55% lattice scenes (3-14 vertices on a <=10x10 lattice scaled by an even "
-             "factor 2..2^36, rectangle on lattice lines, 7 polygon kinds incl. rectilinear walks, boundary-heavy, enclosing, "
-             "spirals), 5% adversarial corner scenes (an edge whose line passes through a rectangle corner exactly or misses it by a "
+             "factor 2..2^36, rectangle on lattice lines, 9 polygon kinds incl. rectilinear walks, boundary-heavy, enclosing, "
+             "spirals, U-notches exactly as wide as the rectangle, polygons through all four corners), 5% adversarial corner scenes (an edge whose line passes through a rectangle corner exactly or misses it by a "
              "sub-unit offset built from the Bezout vector of its direction, magnitudes 2^12..2^40, where the library's "
              "double-precision cross products are dominated by rounding), 10% star-shaped polygons enclosing the rectangle, 10% spirals winding round it up to 4 times, 20% general "
              "polygons (star-shaped, random, star polygons, vertices snapped to sides/corners) at magnitudes 2^6..2^40; every "
